@@ -10,7 +10,7 @@ import (
 func init() {
 	register(&Rule{
 		Name:     "POOLRESET",
-		Doc:      "state that is recycled through a sync.Pool is fully reset: for every struct type that a discovered putter returns to a pool, each field that the repository's Go code assigns after construction is also assigned in the putter (or in the reset method it calls) — a field left dirty leaks one call's state into the next call that gets the object",
+		Doc:      "state that is recycled through a sync.Pool is fully reset: for every struct type that a discovered putter returns to a pool, each field that the repository's Go code assigns after construction is also assigned, on every path to its return, in the putter (or in the reset method it calls) — a field left dirty leaks one call's state into the next call that gets the object",
 		Configs:  "NP",
 		Floor:    map[string]int{"N": 4, "P": 4},
 		Controls: 1,
@@ -30,8 +30,11 @@ func structOf(t types.Type) (*types.Named, *types.Struct) {
 	return n, st
 }
 
-// fieldsStoredVia: names of fields of base's struct that fn stores to (directly on base).
+// fieldsStored: names of fields of base's struct that fn stores to (directly on base) on EVERY path
+// from its entry to a return: a reset under a condition (`if cap(x.buf) > limit { x.buf = … }`)
+// leaves the field dirty on the other path.
 func fieldsStored(fn *ssa.Function, base ssa.Value, out map[string]bool) {
+	blocks := map[string]map[*ssa.BasicBlock]bool{}
 	for _, b := range fn.Blocks {
 		for _, ins := range b.Instrs {
 			st, ok := ins.(*ssa.Store)
@@ -43,8 +46,37 @@ func fieldsStored(fn *ssa.Function, base ssa.Value, out map[string]bool) {
 				continue
 			}
 			if _, n, ok := fieldNameOf(fa); ok {
-				out[n] = true
+				if blocks[n] == nil {
+					blocks[n] = map[*ssa.BasicBlock]bool{}
+				}
+				blocks[n][b] = true
 			}
+		}
+	}
+	for n, bs := range blocks {
+		if len(fn.Blocks) == 0 {
+			continue
+		}
+		// can a return be reached from the entry without passing a storing block?
+		seen := map[*ssa.BasicBlock]bool{}
+		var dfs func(b *ssa.BasicBlock) bool
+		dfs = func(b *ssa.BasicBlock) bool {
+			if seen[b] || bs[b] {
+				return false
+			}
+			seen[b] = true
+			if _, isRet := lastInstr(b).(*ssa.Return); isRet {
+				return true
+			}
+			for _, s := range b.Succs {
+				if dfs(s) {
+					return true
+				}
+			}
+			return false
+		}
+		if !dfs(fn.Blocks[0]) {
+			out[n] = true
 		}
 	}
 }
